@@ -157,7 +157,7 @@ class C11(HistCheck):
 class C13(HistCheck):
     pid = 'C13'
     monitors = {'frames': True}
-    hist_kw = dict(unsat_bias=0.25, defines=0.08, ncmds=(8, 26), p_push=0.15, p_pop=0.12)
+    hist_kw = dict(unsat_bias=0.25, defines=0.08, ncmds=(8, 26), p_push=0.15, p_pop=0.12, reassert=0.2)
     rule = ('per check-sat: G = conjunction of every root handed to the CNF converter for the live frame ids (guarded hook in MainSolver::giveToSolver), F = conjunction of '
             'the R-stack assertions; R-truth(G and not F) must be unsat and F sat => G sat; whole-frame and per-partition modes, substitutions across levels, ITE, div/mod, '
             'distinct, purification, arrays; non-trivial = some root text differs from every assertion text; distinct = hash of (history, config)')
